@@ -49,6 +49,7 @@ func runC04(c *Ctx) {
 	if err != nil || pr.err != "" {
 		return
 	}
+	c04PaginatedEmptiness(c, pr)
 	mine := keyMentions("DenseStore", "SparseStore", "BufferedPaginatedStore")
 	notCollapsing := func(o *Obligation) bool {
 		return mine(o) && !strings.Contains(o.Key, "Collapsing") && !strings.Contains(o.Func, "Collapsing")
@@ -789,5 +790,124 @@ func c04Shift(c *Ctx, rule string) {
 			}
 		}
 		c.R.check(ok, rule, funcName(f)+"/centre", funcName(f), c.fpos(f), "new window stored; shift = offset + len(bins)/2 − (newMin + (newMax−newMin+1)/2)", found)
+	}
+}
+
+// c04PaginatedEmptiness (C04-D8): the paginated store has no cached total. "Empty" means: nothing buffered AND no
+// page line holds weight — pages can be allocated while holding only zeros (a decoded block of zero counts, a
+// cleared-and-reused store), so emptiness cannot be read off the page bookkeeping. IsEmpty may answer true only
+// after a full scan of every line of every page (or by comparing TotalCount() with 0), and TotalCount adds the
+// buffer length and every line of every page.
+func c04PaginatedEmptiness(c *Ctx, pr *paginatedRoles) {
+	const rule = "C04-D8"
+	pagesF := ""
+	for _, f := range structFields(pr.typ) {
+		if f.Type().String() == "[][]float64" {
+			pagesF = f.Name()
+		}
+	}
+	if pagesF == "" {
+		c.R.undecided(rule, "anchor/pages-field", "", "", "the paginated store has a [][]float64 field", "not found")
+		return
+	}
+	// fullScan: the function reads pages[i][j] with both indexes induction variables of full scans; returns the outermost loop header
+	fullScan := func(f *ssa.Function) *ssa.BasicBlock {
+		tc := newTermCtx(c.P)
+		fullScanProg = c.P
+		var outer *ssa.BasicBlock
+		loops := naturalLoops(f)
+		for _, b := range f.Blocks {
+			for _, in := range b.Instrs {
+				ia, ok := in.(*ssa.IndexAddr)
+				if !ok {
+					continue
+				}
+				x := tc.Of(ia.X)
+				if !(x.Op == "index" && isRecvField(x.Args[0], pagesF)) {
+					continue
+				}
+				inner, okI := ia.X.(*ssa.UnOp)
+				if !okI {
+					continue
+				}
+				pia, okP := inner.X.(*ssa.IndexAddr)
+				if !okP || !isRangeIndex(ia.Index) || !isRangeIndex(pia.Index) {
+					continue
+				}
+				// outermost natural loop containing the read
+				for _, l := range loops {
+					if l.body[b] && (outer == nil || l.body[outer]) {
+						outer = l.header
+					}
+				}
+			}
+		}
+		return outer
+	}
+	if f := c.P.DeclaredMethod(pr.typ, "IsEmpty"); c.mustFunc(rule, f, "BufferedPaginatedStore.IsEmpty") {
+		hdr := fullScan(f)
+		tc := newTermCtx(c.P)
+		bad := ""
+		nTrue := 0
+		for _, b := range f.Blocks {
+			ret, ok := b.Instrs[len(b.Instrs)-1].(*ssa.Return)
+			if !ok || len(ret.Results) != 1 {
+				continue
+			}
+			r := tc.Of(ret.Results[0])
+			switch {
+			case r.isConst("false"):
+			case r.isConst("true"):
+				nTrue++
+				if hdr == nil || !hdr.Dominates(b) {
+					bad = "answers true without having scanned every line of every page"
+				}
+			case (r.isBin("==") || r.isBin("<=")) && (isMethodCall(r.Args[0], "TotalCount") && r.Args[1].isConst("0") || isMethodCall(r.Args[1], "TotalCount") && r.Args[0].isConst("0")):
+				nTrue++
+			default:
+				nTrue++
+				if hdr == nil || !hdr.Dominates(b) {
+					bad = "answers " + r.Key() + " without having scanned every line of every page"
+				}
+			}
+		}
+		// the buffer is consulted
+		usesBuf := false
+		for _, b := range f.Blocks {
+			for _, in := range b.Instrs {
+				if call, ok := in.(*ssa.Call); ok {
+					t := tc.Of(call)
+					if t.Op == "builtin" && t.Sym == "len" && isRecvField(t.Args[0], pr.bufFld) || isMethodCall(t, "TotalCount") {
+						usesBuf = true
+					}
+				}
+			}
+		}
+		if !usesBuf {
+			bad = firstNonEmpty(bad, "does not consult the buffer")
+		}
+		c.R.check(bad == "" && nTrue > 0, rule, "BufferedPaginatedStore.IsEmpty/full-scan", shortFn(f), c.fpos(f), "true only after the buffer was found empty and every line of every page was scanned (allocated pages may hold only zeros)", firstNonEmpty(bad, "ok"))
+	}
+	if f := c.P.DeclaredMethod(pr.typ, "TotalCount"); c.mustFunc(rule, f, "BufferedPaginatedStore.TotalCount") {
+		hdr := fullScan(f)
+		tc := newTermCtx(c.P)
+		usesBuf := false
+		for _, b := range f.Blocks {
+			for _, in := range b.Instrs {
+				if call, ok := in.(*ssa.Call); ok {
+					t := tc.Of(call)
+					if t.Op == "builtin" && t.Sym == "len" && isRecvField(t.Args[0], pr.bufFld) {
+						usesBuf = true
+					}
+				}
+			}
+		}
+		okRet := true
+		for _, b := range f.Blocks {
+			if _, ok := b.Instrs[len(b.Instrs)-1].(*ssa.Return); ok && (hdr == nil || !hdr.Dominates(b)) {
+				okRet = false
+			}
+		}
+		c.R.check(hdr != nil && usesBuf && okRet, rule, "BufferedPaginatedStore.TotalCount/full-scan", shortFn(f), c.fpos(f), "the total is the buffer length plus every line of every page, returned only after the full scan", fmt.Sprintf("full scan=%v uses buffer length=%v returns after scan=%v", hdr != nil, usesBuf, okRet))
 	}
 }
